@@ -6,8 +6,8 @@ From GV Require Import Lib.Tree Lib.QSumL.
 Import ListNotations.
 Local Open Scope nat_scope.
 
-Definition jd := list Z.
-Definition jdseq := list jd.
+Notation jd := (list Z) (only parsing).
+Notation jdseq := (list (list Z)) (only parsing).
 
 Inductive sres (A : Type) : Type := SOk (a : A) | SErr (code : Z).
 Arguments SOk {A} a.
